@@ -19,6 +19,7 @@ Not decided: bit-identity of floating-point results (it follows from the above b
 the same statements on the same state).
 """
 import ast
+LINT_EXTRA_FILES = ("ahrs/common/orientation.py",)      # acc2q / am2q / ecompass helpers the filters start from
 from sa.callgraph import call_sites, reachable, local_types
 from sa.flow import Alias
 from sa.model import stmt_text
